@@ -427,4 +427,139 @@ theorem parse_unfold (buf : Bytes) :
               rw [parseLoop_fuel m _ (by simp only [List.length_drop]; omega)]
             · simp only [h2, if_false]
 
+/-- continuing a parse result with more data: what the next `parse()` call adds -/
+def andThen (r : List Pkt × PEnd) (b : Bytes) : List Pkt × PEnd :=
+  match r with
+  | (l, .tail t) => (l ++ (parse (t ++ b)).1, (parse (t ++ b)).2)
+  | (l, e) => (l, e)
+
+theorem andThen_cons (x : Pkt) (r : List Pkt × PEnd) (b : Bytes) :
+    andThen (x :: r.1, r.2) b = (x :: (andThen r b).1, (andThen r b).2) := by
+  obtain ⟨l, e⟩ := r
+  cases e <;> simp [andThen]
+
+/-- Parsing `a ++ b` in one go is parsing `a`, then parsing the left-over tail followed by `b`. -/
+theorem parse_append : ∀ (n : Nat) (a b : Bytes), a.length ≤ n →
+    parse (a ++ b) = andThen (parse a) b := by
+  intro n
+  induction n using Nat.strongRecOn with
+  | _ n ih =>
+    intro a b hn
+    conv => rhs; rw [parse_unfold a]
+    by_cases h4 : a.length < 4
+    · simp [h4, andThen]
+    · simp only [h4, if_false]
+      have htake : (a ++ b).take 4 = a.take 4 := List.take_append_of_le_length (by omega)
+      have hlen : ¬ (a ++ b).length < 4 := by simp only [List.length_append]; omega
+      cases hp : parseLen (a.take 4) with
+      | protocol =>
+        rw [parse_unfold (a ++ b)]
+        simp only [hlen, if_false, htake, hp]
+        rfl
+      | other =>
+        rw [parse_unfold (a ++ b)]
+        simp only [hlen, if_false, htake, hp]
+        rfl
+      | ok size =>
+        simp only
+        by_cases h0 : size = 0
+        · rw [parse_unfold (a ++ b)]
+          simp only [hlen, if_false, htake, hp, h0, if_true]
+          rw [List.drop_append_of_le_length (by omega)]
+          rw [ih (a.length - 4) (by omega) (a.drop 4) b (by simp)]
+          rw [andThen_cons]
+        · simp only [h0, if_false]
+          by_cases h1 : size < 4
+          · rw [parse_unfold (a ++ b)]
+            simp only [hlen, if_false, htake, hp, h0, h1, if_true]
+            rfl
+          · simp only [h1, if_false]
+            by_cases h2 : size ≤ a.length
+            · rw [parse_unfold (a ++ b)]
+              have h2' : size ≤ (a ++ b).length := by simp only [List.length_append]; omega
+              simp only [hlen, if_false, htake, hp, h0, h1, h2, h2', if_true]
+              rw [List.drop_append_of_le_length h2, List.take_append_of_le_length h2]
+              rw [ih (a.length - size) (by omega) (a.drop size) b (by simp)]
+              rw [andThen_cons]
+            · simp [h2, andThen]
+
+/-- what a `parse()` call leaves in `_readahead` yields nothing when parsed again on its own -/
+theorem parse_tail_stuck (a : Bytes) (l : List Pkt) (t : Bytes) (h : parse a = (l, .tail t)) :
+    parse t = ([], .tail t) := by
+  have := parse_append a.length a [] (Nat.le_refl _)
+  rw [List.append_nil, h] at this
+  simp only [andThen, List.append_nil] at this
+  have h1 := congrArg Prod.fst this
+  have h2 := congrArg Prod.snd this
+  simp only at h1 h2
+  have : (parse t).1 = [] := by
+    have := List.self_eq_append_right.mp h1
+    exact this
+  exact Prod.ext this h2.symm
+
+/-- **Chunking independence of the incremental parser**, any byte string, any fragments. -/
+theorem feedAll_eq_parse : ∀ (cs : List Bytes) (t : Bytes), parse t = ([], .tail t) →
+    feedAll t cs = parse (t ++ cs.flatten) := by
+  intro cs
+  induction cs with
+  | nil => intro t ht; simp [feedAll, ht]
+  | cons c cs ih =>
+    intro t _
+    simp only [feedAll, List.flatten_cons]
+    rw [← List.append_assoc, parse_append (t ++ c).length (t ++ c) cs.flatten (Nat.le_refl _)]
+    cases hp : parse (t ++ c) with
+    | mk l e =>
+      cases e with
+      | tail t' =>
+        simp only [andThen]
+        rw [ih t' (parse_tail_stuck _ _ _ hp)]
+      | protoErr => rfl
+      | otherErr => rfl
+
+theorem parse_nil : parse [] = ([], .tail []) := by decide
+
+/-- one well-formed frame at the head of the buffer is handed over as is -/
+theorem parse_frame (x : Pkt) (rest : Bytes) (hf : Fits x) :
+    parse (pktLine x ++ rest) = (x :: (parse rest).1, (parse rest).2) := by
+  rw [parse_unfold]
+  cases x with
+  | none =>
+    rw [pktLine_flush]
+    simp [parseLen_flush]
+  | some d =>
+    have hfit : d.length + 4 < 65536 := hf
+    have hpl := fmtHex_length (d.length + 4) hfit
+    rw [pktLine_data, List.append_assoc]
+    have hlen : ¬ (fmtHex 4 (d.length + 4) ++ (d ++ rest)).length < 4 := by
+      simp only [List.length_append, hpl]; omega
+    have htake : (fmtHex 4 (d.length + 4) ++ (d ++ rest)).take 4 = fmtHex 4 (d.length + 4) := by
+      rw [List.take_append_of_le_length (by omega), List.take_of_length_le (by omega)]
+    simp only [hlen, if_false, htake, parseLen_fmtHex _ hfit]
+    have n0 : ¬ d.length + 4 = 0 := by omega
+    have n1 : ¬ d.length + 4 < 4 := by omega
+    have n2 : d.length + 4 ≤ (fmtHex 4 (d.length + 4) ++ (d ++ rest)).length := by
+      simp only [List.length_append, hpl]; omega
+    simp only [n0, n1, n2, if_false, if_true]
+    have e1 : (fmtHex 4 (d.length + 4) ++ (d ++ rest)).drop (d.length + 4) = rest := by
+      rw [← List.append_assoc]
+      rw [List.drop_append_of_le_length (by simp only [List.length_append, hpl]; omega)]
+      rw [List.drop_of_length_le (by simp only [List.length_append, hpl]; omega)]
+      rfl
+    have e2 : ((fmtHex 4 (d.length + 4) ++ (d ++ rest)).take (d.length + 4)).drop 4 = d := by
+      rw [← List.append_assoc]
+      rw [List.take_append_of_le_length (by simp only [List.length_append, hpl]; omega)]
+      rw [List.take_of_length_le (by simp only [List.length_append, hpl]; omega)]
+      rw [List.drop_append_of_le_length (by omega), List.drop_of_length_le (by omega)]
+      rfl
+    rw [e1, e2]
+
+theorem parse_encode : ∀ (ps : List Pkt), (∀ x ∈ ps, Fits x) → parse (encode ps) = (ps, .tail []) := by
+  intro ps
+  induction ps with
+  | nil => intro _; exact parse_nil
+  | cons x ps ih =>
+    intro h
+    have : encode (x :: ps) = pktLine x ++ encode ps := by simp [encode]
+    rw [this, parse_frame x _ (h x List.mem_cons_self), ih (fun y hy => h y (List.mem_cons_of_mem _ hy))]
+
 end Dulwich.PktLine
